@@ -93,6 +93,7 @@ def run(P, rep, tier):
         engs[('codegen.c', f)] = L.Engine(W, cu, f, hooks=hook).run()
     r131(W, engs, rep)
     r132(W, engs, rep)
+    r133(W, engs, rep)
     r136(W, engs, rep)
     r137(P, rep)
 
@@ -175,7 +176,7 @@ def _why(s):
 
 def r131(W, engs, rep):
     rep.rule('R13.1', 'every dereference of a value from a nullable source (frozen field table, parameter that can receive NULL, function that can return NULL, '
-                      'global that is NULL in some state) is dominated by a non-null fact for the same access path', floor=80)
+                      'global that is NULL in some state) is dominated by a non-null fact for the same access path', floor=60)
     rep.rule('R13.6', 'the token argument of every error_tok/warn_tok call is never a value that may be NULL (the diagnostic can be located)', floor=60)
     seen_src = {}
     obs = {}
@@ -259,7 +260,7 @@ def _is_null_test(n):
 
 def r132(W, engs, rep):
     rep.rule('R13.2', 'a pointer field of Node/Type that is assigned only when constructing kinds K is never read under a dominating kind fact that excludes all of K '
-                      '(such a read always yields NULL)', floor=50)
+                      '(such a read always yields NULL)', floor=30)
     var = variant_fields(W, engs)
     # record field types
     ptr = set()
@@ -273,10 +274,14 @@ def r132(W, engs, rep):
             rep.undecided('R13.2', 'derivation:%s.%s' % need, 'field %s.%s is no longer recognised as assigned under a known kind only (constructor sites changed shape)' % need)
     obs = {}
     for (un, f), e in sorted(engs.items()):
-        for node, rec, fld, vs, bp, ctx in e.reads:
+        for node, rec, fld, vs, bp, nul in e.reads:
             K = var.get((rec, fld))
             if K is None or (rec, fld) not in ptr:
                 continue
+            if (rec, fld) in NULLABLE_FIELDS and 'implied' in NULLABLE_FIELDS[(rec, fld)]:
+                continue    # dereferences of these are judged by R13.1 with the same kind facts
+            if nul == 'NN':
+                continue    # the code has tested this very value non-null on this path
             if not vs or vs[0] != 'in' or not all(isinstance(x, str) for x in vs[1]):
                 continue
             if _is_null_test(node):
@@ -293,6 +298,175 @@ def r132(W, engs, rep):
                 obs[key] = (not bad, msg, '%s:%d' % (un, node.line), {'assigned_for': sorted(K), 'read_under': sorted(vs[1])})
     for key, (ok, msg, where, facts) in sorted(obs.items()):
         rep.ob('R13.2', key, ok, msg, where=where, facts=facts)
+
+
+# --------------------------------------------------------------------------------------------
+def size_table(W, engs):
+    """TypeKind -> set of sizes a type of that kind can have, or 'any'; read from type.c's compound literals,
+    the new_type() calls and the stores to Type.size under a known kind"""
+    SZ = {}
+    tu = W.units['type.c']
+
+    def add(k, v):
+        if v == 'any' or SZ.get(k) == 'any':
+            SZ[k] = 'any'
+        else:
+            SZ.setdefault(k, set()).add(v)
+    for g, d in tu.globals.items():
+        for cl in d.find('CompoundLiteralExpr'):
+            if L.rec_of(cl.type) != 'Type':
+                continue
+            for il in cl.inner:
+                if il.kind == 'InitListExpr' and len(il.inner) >= 2:
+                    k = il.inner[0].strip_all()
+                    sz = il.inner[1].int_value()
+                    if k.kind == 'DeclRefExpr' and k.ref_kind == 'EnumConstantDecl':
+                        add(k.ref_name, sz if sz is not None else 'any')
+    for (un, f), e in engs.items():
+        for node, c, S, vals in e.calls:
+            if c == 'new_type' and len(vals) >= 2 and vals[0].ename:
+                add(vals[0].ename, vals[1].const if vals[1].const is not None else 'any')
+        for rec, fld, vs, node in e.stores:
+            if rec == 'Type' and fld == 'size' and f != 'new_type':
+                if vs and vs[0] == 'in' and all(isinstance(x, str) for x in vs[1]):
+                    for k in vs[1]:
+                        add(k, 'any')
+                else:
+                    raise AnalysisBroken('%s:%s stores Type.size under an unknown kind' % (un, f))
+    uni = W.enum_universe.get('TypeKind')
+    if not uni:
+        raise AnalysisBroken('enum TypeKind vanished')
+    for k in uni:
+        if k not in SZ:
+            raise AnalysisBroken('no size information recovered for %s' % k)
+    return SZ, uni
+
+
+def _kinds_at(S, base, uni):
+    f = S.vs.get(base + '->kind')
+    if f is None:
+        return set(uni), False
+    if f[0] == 'in':
+        return set(x for x in f[1] if isinstance(x, str)), True
+    return set(uni) - set(f[1]), True
+
+
+def _offending(kinds, SZ, accepted):
+    out = []
+    for k in sorted(kinds):
+        s = SZ[k]
+        if s == 'any':
+            out.append((k, 'any size'))
+        elif not s <= accepted:
+            out.append((k, 'size %s' % ','.join(str(x) for x in sorted(s - accepted))))
+    return out
+
+
+def r133(W, engs, rep):
+    rep.rule('R13.3', 'every size that can reach a size dispatcher ending in unreachable() ("internal error") is in the dispatcher\'s list: the sizes are those of the '
+                      'type kinds still possible at the call under the caller\'s kind guards and the typing relation of add_type', floor=6)
+    SZ, uni = size_table(W, engs)
+    size_owner = set()
+    for u in W.units.values():
+        for rec, fields in u.records.items():
+            if any(fn == 'size' for fn, ft, bf in fields):
+                size_owner.add(rec)
+    if size_owner - {'Type'}:
+        raise AnalysisBroken('field name `size` is no longer unique to Type: %s' % sorted(size_owner))
+    rep.extra['sizes_by_kind'] = {k: (v if v == 'any' else sorted(v)) for k, v in sorted(SZ.items())}
+    # 1. dispatch sites
+    disp = {}     # function -> {'param': i | None, 'path': shown, 'accepted': set, 'line': n, 'unit': un, 'raw': path}
+    for (un, f), e in sorted(engs.items()):
+        for node, c, S, vals in e.calls:
+            if c != 'error' or not node.args() or not (node.args()[0].str_value() or '').startswith('internal error'):
+                continue
+            cands = [(p, fct) for p, fct in S.vs.items() if fct[0] == 'notin' and all(isinstance(x, int) for x in fct[1])]
+            cands = [(p, fct) for p, fct in cands if p.endswith('->size') or ('@' in p and p.split('@', 1)[1] in e.param_idx)]
+            if len(cands) != 1:
+                continue
+            p, fct = cands[0]
+            d = disp.setdefault((un, f), {'accepted': set(fct[1]), 'line': node.line, 'path': p, 'show': e.show(p),
+                                          'param': e.param_idx.get(p.split('@', 1)[1]) if ('@' in p and '-' not in p) else None, 'states': []})
+            d['accepted'] &= set(fct[1])
+            d['states'].append(S)
+    if not disp:
+        rep.undecided('R13.3', 'dispatchers', 'no size dispatcher ending in unreachable() was recognised')
+        return
+    notjudged = []
+    obs = {}
+
+    def judge(un, f, e, node, callee, d, S, v, desc_path, q):
+        base = q[:-6]
+        kinds, known = _kinds_at(S, base, uni)
+        direct = S.vs.get(q)
+        if direct and direct[0] == 'in' and all(isinstance(x, int) for x in direct[1]):
+            off = [('size', str(x)) for x in sorted(direct[1] - d['accepted'])]
+        else:
+            off = _offending(kinds, SZ, d['accepted'])
+        key = '%s:%s:%s(%s)' % (un, f, callee, e.show(q))
+        if off:
+            key += '<-' + ','.join(k for k, _ in off)
+        acc = ','.join(str(x) for x in sorted(d['accepted']))
+        msg = ''
+        if off:
+            msg = ('%s() lets `%s` reach %s, which handles only the sizes {%s} and otherwise stops with "internal error at <compiler source line>"; under the guards that '
+                   'dominate this point the type can still be %s%s -> the compiler reports an internal error instead of a located diagnostic or correct code'
+                   % (f, desc_path, ('its own size dispatch' if callee == 'switch' else callee + '()'), acc, ', '.join('%s (%s)' % x for x in off), '' if known else ' (no kind guard constrains it here, in its callers or in add_type)'))
+        o = obs.get(key)
+        if o is None:
+            obs[key] = (not off, msg, '%s:%d' % (un, node.line), {'accepted_sizes': sorted(d['accepted']), 'possible_kinds': sorted(kinds), 'offending': off})
+
+    for (dun, df), d in sorted(disp.items()):
+        if d['param'] is not None:
+            i = d['param']
+            ncalls = 0
+            for (un, f), e in sorted(engs.items()):
+                for node, c, S, vals in e.calls:
+                    if c != df or i >= len(vals) or W.resolve(e.u, df) is not W.units[dun]:
+                        continue
+                    ncalls += 1
+                    v = vals[i]
+                    a = node.args()[i]
+                    if v.const is not None and v.path is None:
+                        key = '%s:%s:%s(%d)' % (un, f, df, v.const)
+                        ok = v.const in d['accepted']
+                        obs[key] = (ok, '%s() calls %s with the constant size %d, which it does not handle ("internal error")' % (f, df, v.const), '%s:%d' % (un, node.line), None)
+                        continue
+                    q = None
+                    if v.path is not None:
+                        q = v.path if v.path.endswith('->size') else S.ali.get(v.path)
+                    if q is None or not q.endswith('->size') or (q + '#rel') in S.vs or (v.path + '#rel') in S.vs:
+                        notjudged.append('%s:%s:%s(%s)' % (un, f, df, a.src()))
+                        continue
+                    judge(un, f, e, node, df, d, S, v, a.src(), q)
+            if ncalls == 0:
+                rep.undecided('R13.3', '%s:%s:no-caller' % (dun, df), 'size dispatcher %s() has no recognisable caller' % df)
+        else:
+            # dispatch on a type path inside the function itself; add what the callers know about it
+            e = engs[(dun, df)]
+            q = d['path']
+            root = q.split('-', 1)[0]
+            pi = e.param_idx.get(root.split('@', 1)[1]) if '@' in root else None
+            for S in d['states']:
+                S2 = S
+                if pi is not None and (q[:-6] + '->kind') not in S.vs:
+                    # union of the callers' facts on the corresponding argument path
+                    acc = None
+                    for (un, f), e2 in engs.items():
+                        for node, c, Sc, vals in e2.calls:
+                            if c != df or pi >= len(vals) or vals[pi].path is None:
+                                continue
+                            kk, known = _kinds_at(Sc, vals[pi].path + q[len(root):-6], uni)
+                            acc = kk if acc is None else (acc | kk)
+                    if acc is not None and acc != set(uni):
+                        S2 = S.copy()
+                        S2.vs[q[:-6] + '->kind'] = ('in', frozenset(acc))
+                node = [n for n, c, Sx, _ in e.calls if Sx is S][0]
+                judge(dun, df, e, node, 'switch', d, S2, None, q and e.show(q), q)
+    for key, (ok, msg, where, facts) in sorted(obs.items()):
+        rep.ob('R13.3', key, ok, msg, where=where, facts=facts)
+    rep.extra['size_dispatch'] = {'dispatchers': {'%s:%s' % k: {'on': v['show'], 'accepted': sorted(v['accepted'])} for k, v in sorted(disp.items())},
+                                  'call_sites_not_judged (argument is not a plain Type.size)': sorted(set(notjudged))}
 
 
 # --------------------------------------------------------------------------------------------
@@ -484,7 +658,7 @@ HARMLESS = frozenset(['fprintf', 'printf', 'fputs', 'puts', 'fflush', 'perror', 
 
 def r137(P, rep):
     rep.rule('R13.7', 'after waiting for a child, every non-zero wait status (exit code or signal) leads to exit with a non-zero code and status 0 does not '
-                      '(a crashed cc1/as/ld is never reported as success)', floor=4)
+                      '(a crashed cc1/as/ld is never reported as success)', floor=3)
     u = P.unit('main.c')
     W_noreturn = set(L.NORETURN_LIBC)
     for f, fd in u.fdecls.items():
@@ -521,14 +695,9 @@ def r137(P, rep):
             rep.undecided('R13.7', 'main.c:%s:wait-position' % f, 'wait() is executed conditionally', where=where)
             continue
         rest = body.inner[body.inner.index(top) + 1:]
-        classes = {'exit-code': [], 'signal': [], 'other': []}
-        for s in range(1, 65536):
-            if (s & 0x7f) == 0:
-                classes['exit-code'].append(s)
-            elif _wrap(((s & 0x7f) + 1), 'signed char') >> 1 > 0:
-                classes['signal'].append(s)
-            else:
-                classes['other'].append(s)
+        # statuses wait() can deliver without WUNTRACED/WCONTINUED: exited(code) = code<<8, killed(sig[,core]) = sig | 0x80?
+        classes = {'exit-code': [c << 8 for c in range(1, 256)],
+                   'signal': [sig | core for sig in range(1, 127) for core in (0, 0x80)]}
         try:
             r0 = _cexec(rest, {sid: 0}, W_noreturn, HARMLESS)
             rep.ob('R13.7', 'main.c:%s:status-0-is-success' % f, r0[0] != 'exit',
@@ -543,11 +712,10 @@ def r137(P, rep):
                     if r[1] == 0 or (r[1] & 0xff) == 0:
                         bad = (s, 'calls %s(%d), i.e. reports success' % (r[2], r[1]))
                         break
-                desc = {'exit-code': 'child exit code %d', 'signal': 'child killed by signal %d%s', 'other': 'status 0x%x'}
                 what = ''
                 if bad:
                     s = bad[0]
-                    d = ('child exit code %d' % (s >> 8)) if cname == 'exit-code' else (('child killed by signal %d%s' % (s & 0x7f, ' (core dumped)' if s & 0x80 else '')) if cname == 'signal' else 'stopped/other status')
+                    d = ('child exit code %d' % (s >> 8)) if cname == 'exit-code' else ('child killed by signal %d%s' % (s & 0x7f, ' (core dumped)' if s & 0x80 else ''))
                     what = ('%s(): for wait status %d = 0x%04x (%s) the code after wait() %s: a front end that dies from SIGSEGV/SIGABRT would be followed by the '
                             'assembler on an empty file and the driver would exit 0 without any diagnostic' % (f, s, s, d, bad[1]))
                 rep.ob('R13.7', 'main.c:%s:%s-is-failure' % (f, cname), bad is None, what, where=where, facts={'witness_status': bad[0] if bad else None})
